@@ -66,7 +66,7 @@ CLAIMED["C09"] = dict(
     technique="Coq proof (flattening) + paired whole-simulation runs compared in Coq",
     ref="5/C09")
 CLAIMED["C10"] = dict(
-    text="Coq theorems: topics of different components never coincide and no input topic is an output topic, over constants re-extracted from the source each run (C10_topics_disjoint); a device update touches only that device's state and a component outside a tick's extent is untouched (C10_update_frame, C10_outside_extent_untouched); a whole tick of a flat level extended by a disconnected part gives every old device the same observation and state (C10_tick_noninterference, when present in Props/C10.v). Non-interference over histories is decided per pair of runs of the real classes: configuration vs configuration + disconnected devices/system simulations (91), probe adapters notified exactly once per own update, and the shipped EpicsAdapter/CommandAdapter driven without network (records of one adapter never touched by another's update).",
+    text="Coq theorems: topics of different components never coincide and no input topic is an output topic, over constants re-extracted from the source each run (C10_topics_disjoint); a device update touches only that device's state and a component outside a tick's extent is untouched (C10_update_frame, C10_outside_extent_untouched); a whole tick of a flat level extended by a disconnected part gives every old device the same observation and state - the added part may have any behaviour, be roots of the tick or not, sit anywhere in the order (C10_tick_noninterference). Non-interference over histories is decided per pair of runs of the real classes: configuration vs configuration + disconnected devices/system simulations (91), probe adapters notified exactly once per own update, and the shipped EpicsAdapter/CommandAdapter driven without network (records of one adapter never touched by another's update).",
     note=TB + "the virtual-time event loop, a stub for softioc's builder. PARTIAL: the multi-tick statement for the master is pairwise-tested, not proved. Integer speeds only in the pairs (rounding of the real-time deadline may differ by 1 ns otherwise, which is not an observation of any device).",
     technique="Coq proof (topic injectivity, frame lemmas) + paired whole-simulation runs compared in Coq + adapter-level differential runs",
     ref="5/C10")
